@@ -17,8 +17,8 @@ import (
 	"verif/gen"
 	"verif/hx"
 	"verif/rc"
-	"verif/wk"
 	"verif/ref"
+	"verif/wk"
 )
 
 type job struct {
@@ -523,7 +523,6 @@ func TestC14_Interleaved(t *testing.T) {
 	})
 }
 
-
 // ---- the same text under the same configuration always assembles to the same result
 
 type repeatCase struct {
@@ -568,6 +567,6 @@ func TestC14_Repeat(t *testing.T) {
 	hx.Run(t, hx.Prop[repeatCase]{
 		ID: "C14", Sub: "repeat", Checks: hx.Scale(350, 200000),
 		Rule: "repeatability: one generated text (FOR programs with chained and shared EQUs in their counts two times out of three, C03 programs otherwise) is assembled 5..9 times in one process under one configuration; every result must equal the first (Go randomises map iteration per range statement, so anything that depends on it shows). Non-trivial: the text has an EQU and a FOR; distinct by case hash.",
-		Gen: genRepeatCase, Judge: judgeRepeatCase,
+		Gen:  genRepeatCase, Judge: judgeRepeatCase,
 	})
 }
